@@ -162,6 +162,8 @@ def gen():
         "drain.item-outlives-iterator(block)": "let e = { let mut d = v.drain(..); d.next().unwrap() };\n    sink(e.size());",
         "drain.item-then-use-source": "let mut d = v.drain(0..1);\n    let e = d.next().unwrap();\n    drop(d);\n    v.push(W::new(String::from(\"z\")));\n    sink(e.size());",
         "splice.item-outlives-iterator": "let e = v.splice(0..1, [W::new(String::new())]).next().unwrap();\n    sink(e.size());",
+        "drain.last-outlives-iterator": "let e = v.drain(0..1).last().unwrap();\n    sink(e.size());",
+        "drain.max_by_key-outlives-iterator": "let e = v.drain(0..2).max_by_key(|e| e.size()).unwrap();\n    sink(e.size());",
         "iter_mut.item-then-mutate-source": "let mut e = v.iter_mut().next().unwrap();\n    v.clear();\n    sink(e.size());",
         "iter.item-then-mutate-source": "let e = v.iter().next().unwrap();\n    v.clear();\n    sink(e.size());",
     }
